@@ -240,6 +240,9 @@ def _to_stiefel_euler_real(theta, dim, rank):
             ct = torch.cos(theta_i)
             st = torch.sin(theta_i)
             cum_st = torch.cumprod(st, dim=1)
+            if N0==0: #rank==dim, the first column lives in a 1-dimensional space
+                ret = torch.ones(batch, 1, 1, dtype=theta.dtype, device=theta.device)
+                continue
             rowJ = torch.concat([ct[:,:1], ct[:,1:]*cum_st[:,:-1], cum_st[:,-1:]], dim=1).reshape(batch,N0+1,1)
             if ret is None:
                 ret = rowJ
@@ -247,8 +250,8 @@ def _to_stiefel_euler_real(theta, dim, rank):
                 zi = []
                 tmp0 = 0*ret[:,0], ret[:,0]
                 for indI in range(N0):
-                    zi.append(ct[:,indI]*tmp0[0] - st[:,indI]*tmp0[1])
-                    tmp1 = ct[:,indI]*tmp0[1] + st[:,indI]*tmp0[0]
+                    zi.append(ct[:,indI:indI+1]*tmp0[0] - st[:,indI:indI+1]*tmp0[1])
+                    tmp1 = ct[:,indI:indI+1]*tmp0[1] + st[:,indI:indI+1]*tmp0[0]
                     if indI+1 < N0:
                         tmp0 = tmp1, ret[:,indI+1]
                     else:
@@ -260,6 +263,9 @@ def _to_stiefel_euler_real(theta, dim, rank):
             ct = np.cos(theta_i)
             st = np.sin(theta_i)
             cum_st = np.cumprod(st, axis=1)
+            if N0==0: #rank==dim, the first column lives in a 1-dimensional space
+                ret = np.ones((batch, 1, 1), dtype=theta.dtype)
+                continue
             rowJ = np.concatenate([ct[:,:1], ct[:,1:]*cum_st[:,:-1], cum_st[:,-1:]], axis=1).reshape(batch,N0+1,1)
             if ret is None:
                 ret = rowJ
@@ -267,8 +273,8 @@ def _to_stiefel_euler_real(theta, dim, rank):
                 zi = []
                 tmp0 = 0*ret[:,0], ret[:,0]
                 for indI in range(N0):
-                    zi.append(ct[:,indI]*tmp0[0] - st[:,indI]*tmp0[1])
-                    tmp1 = ct[:,indI]*tmp0[1] + st[:,indI]*tmp0[0]
+                    zi.append(ct[:,indI:indI+1]*tmp0[0] - st[:,indI:indI+1]*tmp0[1])
+                    tmp1 = ct[:,indI:indI+1]*tmp0[1] + st[:,indI:indI+1]*tmp0[0]
                     if indI+1 < N0:
                         tmp0 = tmp1, ret[:,indI+1]
                     else:
@@ -290,6 +296,9 @@ def _to_stiefel_euler_complex(theta, dim, rank, with_phase):
     if isinstance(theta, torch.Tensor):
         for theta_i,phi_i in theta_list:
             N0 = theta_i.shape[1]
+            if N0==0: #rank==dim, the first column lives in a 1-dimensional space
+                ret = torch.ones(batch, 1, 1, dtype=torch.complex64 if theta.dtype==torch.float32 else torch.complex128, device=theta.device)
+                continue
             tmp0 = phi_i[:,:1]*0
             cum_expp = torch.exp(1j*(torch.cumsum(torch.concat([tmp0, phi_i], dim=1), dim=1) - torch.concat([phi_i, tmp0], dim=1)))
             expp = torch.exp(1j*phi_i)
@@ -303,8 +312,8 @@ def _to_stiefel_euler_complex(theta, dim, rank, with_phase):
                 zi = []
                 tmp0 = 0*ret[:,0], ret[:,0]
                 for indI in range(N0):
-                    zi.append((ct[:,indI]/expp[:,indI])*tmp0[0] - (st[:,indI]/expp[:,indI])*tmp0[1])
-                    tmp1 = (ct[:,indI]*expp[:,indI])*tmp0[1] + (st[:,indI]*expp[:,indI])*tmp0[0]
+                    zi.append((ct[:,indI:indI+1]/expp[:,indI:indI+1])*tmp0[0] - (st[:,indI:indI+1]/expp[:,indI:indI+1])*tmp0[1])
+                    tmp1 = (ct[:,indI:indI+1]*expp[:,indI:indI+1])*tmp0[1] + (st[:,indI:indI+1]*expp[:,indI:indI+1])*tmp0[0]
                     if indI+1 < N0:
                         tmp0 = tmp1, ret[:,indI+1]
                     else:
@@ -315,6 +324,9 @@ def _to_stiefel_euler_complex(theta, dim, rank, with_phase):
     else:
         for theta_i,phi_i in theta_list:
             N0 = theta_i.shape[1]
+            if N0==0: #rank==dim, the first column lives in a 1-dimensional space
+                ret = np.ones((batch, 1, 1), dtype=np.complex64 if theta.dtype==np.float32 else np.complex128)
+                continue
             tmp0 = np.zeros((batch,1))
             cum_expp = np.exp(1j*(np.cumsum(np.concatenate([tmp0, phi_i], axis=1), axis=1) - np.concatenate([phi_i, tmp0], axis=1)))
             expp = np.exp(1j*phi_i)
@@ -328,8 +340,8 @@ def _to_stiefel_euler_complex(theta, dim, rank, with_phase):
                 zi = []
                 tmp0 = 0*ret[:,0], ret[:,0]
                 for indI in range(N0):
-                    zi.append((ct[:,indI]/expp[:,indI])*tmp0[0] - (st[:,indI]/expp[:,indI])*tmp0[1])
-                    tmp1 = (ct[:,indI]*expp[:,indI])*tmp0[1] + (st[:,indI]*expp[:,indI])*tmp0[0]
+                    zi.append((ct[:,indI:indI+1]/expp[:,indI:indI+1])*tmp0[0] - (st[:,indI:indI+1]/expp[:,indI:indI+1])*tmp0[1])
+                    tmp1 = (ct[:,indI:indI+1]*expp[:,indI:indI+1])*tmp0[1] + (st[:,indI:indI+1]*expp[:,indI:indI+1])*tmp0[0]
                     if indI+1 < N0:
                         tmp0 = tmp1, ret[:,indI+1]
                     else:
